@@ -128,6 +128,10 @@ def gen_pool(rng, index, n_ids, max_versions, kinds, digits_mixed=False, version
     return pool
 
 
+HAS_DESCRIPTION = {'attack-pattern', 'campaign', 'course-of-action', 'identity', 'indicator', 'intrusion-set', 'malware', 'report', 'threat-actor',
+                   'tool', 'vulnerability'}
+
+
 def content(pool, k, j):
     """JSON dict of version j of pool entry k (pure function of the plan)."""
     e = pool[k]
@@ -140,6 +144,9 @@ def content(pool, k, j):
             d['created_by_ref'] = eid(pool[e['creator']])
         if kind == 'identity':
             d['name'] = 'identity %d v%d' % (e['id_n'], j)
+        if e['id_n'] % 7 == 3 and e['type'] in HAS_DESCRIPTION and (j % 2 == 0 or e['id_n'] % 2):
+            # a property that is present and EMPTY (legal): it is there for every filter - equal to '', different from anything else
+            d['description'] = ''
         if e.get('big'):
             # several strings, each larger than a write buffer: the file reaches the disk in several writes
             d['labels'] = d['labels'] + ['L%d' % i + 'L' * 9000 for i in range(1 + e['big'] // 9000)]
